@@ -150,7 +150,7 @@ impl Shape {
 
 // ---------------------------------------------------------------- calls and observations
 #[derive(Clone, Debug)]
-enum Call { Advance, Seek(u32), Fill, Bitset(u32), Count }
+enum Call { Advance, Seek(u32), Fill, Bitset(u32), Danger(u32), Count }
 impl Call {
     fn coq(&self) -> String {
         match self {
@@ -158,12 +158,14 @@ impl Call {
             Call::Seek(t) => format!("CSeek {}", t),
             Call::Fill => "CFill".into(),
             Call::Bitset(m) => format!("CBitset {}", m),
+            Call::Danger(t) => format!("CDanger {}", t),
             Call::Count => "CCount".into(),
         }
     }
 }
+/// Danger(None, doc) = Found (doc() afterwards); Danger(Some(b), 0) = SeekLowerBound(b) (doc() not observed)
 #[derive(Clone, Debug, PartialEq)]
-enum Obs { Doc(u32), Buf(Vec<u32>, u32), Mask(Vec<u64>, u32, u32), Count(u32), Panic(String) }
+enum Obs { Doc(u32), Buf(Vec<u32>, u32), Mask(Vec<u64>, u32, u32), Count(u32), Danger(Option<u32>, u32), Panic(String) }
 impl Obs {
     fn coq(&self) -> String {
         match self {
@@ -171,6 +173,8 @@ impl Obs {
             Obs::Buf(b, d) => format!("OBuf {} {}", cf::ns(b), d),
             Obs::Mask(m, r, d) => format!("OMask {} {} {}", cf::ns(m), r, d),
             Obs::Count(n) => format!("OCount {}", n),
+            Obs::Danger(None, d) => format!("ODanger SdFound {}", d),
+            Obs::Danger(Some(b), d) => format!("ODanger (SdLower {}) {}", b, d),
             Obs::Panic(_) => "OOutOfFuel".into(),
         }
     }
@@ -194,45 +198,88 @@ fn spec_step(rem: &mut &[u32], c: &Call) -> Obs {
             Obs::Mask(mask, doc(rem), doc(rem))
         }
         Call::Count => { let n = rem.len() as u32; *rem = &rem[rem.len()..]; Obs::Count(n) }
+        Call::Danger(_) => Obs::Panic("relational".into()),
     }
+}
+
+/// relational list semantics (mirror of Program.v spec_check)
+fn rust_check(truth: &[u32], prog: &[Call], obs: &[Obs]) -> bool {
+    if prog.len() != obs.len() { return false; }
+    let mut rem = truth;
+    let mut dang = false;
+    for (c, o) in prog.iter().zip(obs) {
+        match (c, o) {
+            (Call::Danger(t), Obs::Danger(res, d)) => {
+                if *t >= TERMINATED {
+                    match res { Some(b) if *b >= TERMINATED => { dang = true; } _ => return false }
+                } else {
+                    while !rem.is_empty() && rem[0] < *t { rem = &rem[1..]; }
+                    let member = rem.first() == Some(t);
+                    match res {
+                        None => { if !member || *d != *t { return false; } dang = false; }
+                        Some(b) => { if member || !(*t < *b) || *b > rem.first().copied().unwrap_or(TERMINATED) { return false; } dang = true; }
+                    }
+                }
+            }
+            (Call::Danger(_), _) => return false,
+            (c, o) => { if dang { return false; } if spec_step(&mut rem, c) != *o { return false; } }
+        }
+    }
+    true
 }
 
 struct Driven { prog: Vec<Call>, obs: Vec<Obs>, problems: Vec<String> }
 
 /// Generates a valid program on line (targets >= the scorer's current doc) and records what the scorer answers.
-fn drive(sc: &mut Box<dyn Scorer>, truth: &[u32], ref_scores: Option<&HashMap<u32, f32>>, len: usize, rng: &mut Rng) -> Driven {
+fn drive(sc: &mut Box<dyn Scorer>, truth: &[u32], ref_scores: Option<&HashMap<u32, f32>>, len: usize, with_danger: bool, rng: &mut Rng) -> Driven {
+    let mut dangling: Option<u32> = None;
     let mut prog = vec![];
     let mut obs = vec![];
     let mut problems = vec![];
     for step in 0..len {
-        let cur = match guarded(|| sc.doc()) { Ok(d) => d, Err(e) => { obs.push(Obs::Panic(e)); break; } };
+        let cur = if dangling.is_some() { 0 } else { match guarded(|| sc.doc()) { Ok(d) => d, Err(e) => { obs.push(Obs::Panic(e)); break; } } };
         let last = step + 1 == len;
         let r = rng.below(100);
-        let call = if last && rng.chance(1, 2) { Call::Count }
-            else if r < 28 { Call::Advance }
-            else if r < 78 {
-                // boundary-biased target >= current doc
-                let base = cur;
-                let pos = truth.partition_point(|d| *d < base);
-                let t = match rng.below(16) {
-                    0 => base,
-                    1 => base.saturating_add(1),
-                    2 | 3 => { let k = pos + rng.below(6) as usize; truth.get(k).copied().unwrap_or(TERMINATED) }
-                    4 => { let k = pos + rng.below(6) as usize; truth.get(k).copied().unwrap_or(TERMINATED).saturating_sub(1) }
-                    5 => { let k = pos + rng.below(6) as usize; truth.get(k).copied().map(|d| d + 1).unwrap_or(TERMINATED) }
-                    6 => base.saturating_add(4095),
-                    7 => base.saturating_add(4096),
-                    8 => base.saturating_add(4097),
-                    9 => ((base / 4096) + 1 + rng.below(3) as u32).saturating_mul(4096).saturating_sub(rng.below(2) as u32),
-                    10 => ((base / 128) + 1 + rng.below(4) as u32).saturating_mul(128).saturating_sub(rng.below(2) as u32),
-                    11 => ((base / 64) + 1).saturating_mul(64).saturating_add(rng.below(2) as u32),
-                    12 => ((base / 1024) + 1).saturating_mul(1024).saturating_sub(rng.below(2) as u32),
-                    13 => { let k = pos + rng.below(40) as usize; truth.get(k).copied().unwrap_or(TERMINATED) }
-                    14 => if rng.chance(1, 3) { TERMINATED - 1 } else { base.saturating_add(rng.below(9000) as u32) },
-                    _ => if rng.chance(1, 6) { TERMINATED } else { base.saturating_add(rng.below(300) as u32) },
-                };
-                Call::Seek(t.max(base).min(TERMINATED))
+        let target = |rng: &mut Rng, base: u32| -> u32 {
+            let pos = truth.partition_point(|d| *d < base);
+            let t = match rng.below(16) {
+                0 => base,
+                1 => base.saturating_add(1),
+                2 | 3 => { let k = pos + rng.below(6) as usize; truth.get(k).copied().unwrap_or(TERMINATED) }
+                4 => { let k = pos + rng.below(6) as usize; truth.get(k).copied().unwrap_or(TERMINATED).saturating_sub(1) }
+                5 => { let k = pos + rng.below(6) as usize; truth.get(k).copied().map(|d| d + 1).unwrap_or(TERMINATED) }
+                6 => base.saturating_add(4095),
+                7 => base.saturating_add(4096),
+                8 => base.saturating_add(4097),
+                9 => ((base / 4096) + 1 + rng.below(3) as u32).saturating_mul(4096).saturating_sub(rng.below(2) as u32),
+                10 => ((base / 128) + 1 + rng.below(4) as u32).saturating_mul(128).saturating_sub(rng.below(2) as u32),
+                11 => ((base / 64) + 1).saturating_mul(64).saturating_add(rng.below(2) as u32),
+                12 => ((base / 1024) + 1).saturating_mul(1024).saturating_sub(rng.below(2) as u32),
+                13 => { let k = pos + rng.below(40) as usize; truth.get(k).copied().unwrap_or(TERMINATED) }
+                14 => if rng.chance(1, 3) { TERMINATED - 1 } else { base.saturating_add(rng.below(9000) as u32) },
+                _ => if rng.chance(1, 6) { TERMINATED } else { base.saturating_add(rng.below(300) as u32) },
+            };
+            t.max(base).min(TERMINATED)
+        };
+        let call = if let Some(lastt) = dangling {
+            // after a miss only seek_danger with a strictly larger target (or stop)
+            if rng.chance(1, 5) || lastt >= TERMINATED { break; }
+            Call::Danger(target(rng, lastt + 1))
+        }
+            else if !with_danger && last && rng.chance(1, 2) { Call::Count }
+            else if with_danger && last && rng.chance(1, 3) { Call::Count }
+            else if with_danger && r % 7 == 0 {
+                // mostly targets >= doc; sometimes below the current document (what Exclude does)
+                // (only targets above every document already passed: a target at or before a passed member is outside
+                // the contract, as for seek)
+                let pos = truth.partition_point(|d| *d < cur);
+                let pred = if pos == 0 { None } else { Some(truth[pos - 1]) };
+                let lo = pred.map(|p| p + 1).unwrap_or(0);
+                if rng.chance(1, 6) && lo < cur.min(TERMINATED - 1) { Call::Danger(lo + rng.below((cur.min(TERMINATED - 1) - lo) as u64) as u32) }
+                else { Call::Danger(target(rng, cur)) }
             }
+            else if r < 28 { Call::Advance }
+            else if r < 78 { Call::Seek(target(rng, cur)) }
             else if r < 90 { Call::Fill }
             else {
                 let m = match rng.below(4) { 0 => cur, 1 => (cur / 1024 + 1).saturating_mul(1024), 2 => cur.saturating_add(rng.below(70) as u32), _ => cur.saturating_add(rng.below(3000) as u32) };
@@ -251,6 +298,15 @@ fn drive(sc: &mut Box<dyn Scorer>, truth: &[u32], ref_scores: Option<&HashMap<u3
                 let r = sc.fill_bitset_block(*m, &mut mask);
                 (Obs::Mask(mask.iter().map(|t| t.into_iter().fold(0u64, |a, b| a | (1u64 << b))).collect(), r, sc.doc()), true, false)
             }
+            Call::Danger(t) => {
+                // SeekDangerResult is not exported by the crate: read it through its Debug form
+                let r = format!("{:?}", sc.seek_danger(*t));
+                if r == "Found" { (Obs::Danger(None, sc.doc()), true, true) }
+                else {
+                    let b: u32 = r.trim_start_matches("SeekLowerBound(").trim_end_matches(')').parse().expect("SeekLowerBound(n)");
+                    (Obs::Danger(Some(b), 0), true, false)
+                }
+            }
             Call::Count => (Obs::Count(sc.count_including_deleted()), true, false),
         });
         prog.push(call.clone());
@@ -258,6 +314,7 @@ fn drive(sc: &mut Box<dyn Scorer>, truth: &[u32], ref_scores: Option<&HashMap<u3
             Err(e) => { obs.push(Obs::Panic(e.clone())); problems.push(format!("panic in {:?}: {}", call, e)); break; }
             Ok((ob, ret_ok, positioning)) => {
                 if !ret_ok { problems.push(format!("{:?}: returned value differs from doc() afterwards", call)); }
+                if let (Call::Danger(t), Obs::Danger(res, _)) = (&call, &ob) { dangling = if res.is_some() { Some(*t) } else { None }; }
                 obs.push(ob);
                 if positioning {
                     if let Some(rs) = ref_scores {
@@ -390,12 +447,14 @@ fn exercise2(ctx: &mut Ctx, what: &str, make: &dyn Fn() -> Box<dyn Scorer>, trut
         let len = match ctx.rng.below(4) { 0 => ctx.rng.range(1, 4) as usize, _ => ctx.rng.range(4, 22) as usize };
         let mut rng = ctx.rng.fork();
         let mut sc = match guarded(|| make()) { Ok(s) => s, Err(_) => return };
-        let d = drive(&mut sc, truth, ref_scores, len, &mut rng);
+        let with_danger = p % 2 == 1;
+        let d = drive(&mut sc, truth, ref_scores, len, with_danger, &mut rng);
         ctx.out.count("programs", 1);
         ctx.out.count("calls", d.prog.len() as u64);
-        for c in &d.prog { ctx.out.count(match c { Call::Advance => "call_advance", Call::Seek(_) => "call_seek", Call::Fill => "call_fill_buffer", Call::Bitset(_) => "call_fill_bitset", Call::Count => "call_count" }, 1); }
-        let expect = rust_spec(truth, &d.prog);
-        let ok = expect == d.obs;
+        for c in &d.prog { ctx.out.count(match c { Call::Advance => "call_advance", Call::Seek(_) => "call_seek", Call::Fill => "call_fill_buffer", Call::Bitset(_) => "call_fill_bitset", Call::Danger(_) => "call_seek_danger", Call::Count => "call_count" }, 1); }
+        let has_danger = d.prog.iter().any(|c| matches!(c, Call::Danger(_)));
+        let expect = if has_danger { vec![] } else { rust_spec(truth, &d.prog) };
+        let ok = if has_danger { rust_check(truth, &d.prog, &d.obs) } else { expect == d.obs };
         if ok {
             ctx.out.spec_checked(true, json!(null));
         } else {
@@ -408,7 +467,7 @@ fn exercise2(ctx: &mut Ctx, what: &str, make: &dyn Fn() -> Box<dyn Scorer>, trut
             match (&union_shape, pr.starts_with("score")) {
                 (Some(sh), true) => {
                     // F132 needs a fill_buffer before a positioning call; otherwise the only known class is F133
-                    let fill_then_pos = d.prog.iter().enumerate().any(|(i, c)| matches!(c, Call::Fill) && d.prog[i + 1..].iter().any(|c| matches!(c, Call::Advance | Call::Seek(_))));
+                    let fill_then_pos = d.prog.iter().enumerate().any(|(i, c)| matches!(c, Call::Fill) && d.prog[i + 1..].iter().any(|c| matches!(c, Call::Advance | Call::Seek(_) | Call::Danger(_))));
                     if !f132_done {
                         if fill_then_pos { ctx.out.coq_case("known:F132", format!("has_union {} && fill_then_position {}", sh, progs_term(&d.prog)), pj, true); }
                         else { ctx.out.coq_case("known:F133", format!("union_over_inter {}", sh), pj, true); }
@@ -423,7 +482,7 @@ fn exercise2(ctx: &mut Ctx, what: &str, make: &dyn Fn() -> Box<dyn Scorer>, trut
             ctx.coq_budget -= 1;
             let pj = json!({"what": what, "program": progs_term(&d.prog), "case": desc});
             if ok {
-                ctx.out.coq_case("spec", format!("obsl_eqb (spec_run {} {}) {}", spec_list, progs_term(&d.prog), obs_term(&d.obs)), pj.clone(), nontrivial && d.prog.len() >= 3);
+                ctx.out.coq_case("spec", if has_danger { format!("spec_check {} false {} {}", spec_list, progs_term(&d.prog), obs_term(&d.obs)) } else { format!("obsl_eqb (spec_run {} {}) {}", spec_list, progs_term(&d.prog), obs_term(&d.obs)) }, pj.clone(), nontrivial && d.prog.len() >= 3);
             }
             if let Some(m) = model {
                 ctx.out.coq_case("tie", format!("obsl_eqb ({} {}) {}", m, progs_term(&d.prog), obs_term(&d.obs)), pj, nontrivial && d.prog.len() >= 3);
